@@ -187,12 +187,12 @@ def run_impl(p):
                 ia.setflags(write=False)        # an index array the caller does not allow to be written to
             res = r[ia]
             if not np.array_equal(ia, keep):
-                raise AssertionError("indexing modified the caller's index array")
+                raise engine.Inconsistent("indexing modified the caller's index array")
             return res
         if k == "slice":
             res = r[wrap(slice(ix["a0"], ix["b0"], ix["k"]))]
             if sp == 3 and not isinstance(r[...], type(r)):
-                raise AssertionError("rla[...] is not the array")
+                raise engine.Inconsistent("rla[...] is not the array")
             return _rl_result(res, joined=ix["k"] not in (None, 1))
         if k == "mask":
             if ix["rl"]:
